@@ -193,6 +193,7 @@ type Response struct {
 // Decode reads a response from reader and decodes it.
 func (r *Response) Decode(reader io.Reader) (err error) {
 	r.Result = false
+	r.Message = ""
 	parts := make([]string, 1)
 	if err := decodeLengthEncodedStrings(reader, parts); err != nil {
 		return err
